@@ -161,13 +161,23 @@ IndirectPieces ==
   {P("~?", <<S(b.txt), IF b.args = <<>> THEN Nil ELSE L(b.args)>>) : b \in Simple \cup Bodies}
   \cup {P("~@?", <<S(b.txt)>> \o b.args) : b \in Simple \cup Bodies}
   \cup {P("~?", <<S("~a ~a"), L(<<IntV(1)>>)>>), P("~?", <<S("~a"), L(<<IntV(1), IntV(2)>>)>>), P("~?~a", <<S("~a~^~a"), L(<<IntV(1)>>), S("after")>>)}
-BlockPieces == IterPieces \cup CondPieces \cup CasePieces \cup IndirectPieces
+\* blocks inside blocks, the inner one ending directly in front of the end of the outer one (or of a clause separator), and three deep
+NestPieces ==
+  LET l12 == L(<<L(<<IntV(1), IntV(2)>>), L(<<IntV(3)>>)>>) IN
+  {P("~{~{~a~}~}", <<l12>>), P("~{x~{~a~}~}", <<l12>>), P("~{~{~a~}y~}", <<l12>>), P("~{~{~a~}~}|~a", <<l12, S("end")>>),
+   P("~:{~{~a~}~}", <<L(<<L(<<l12.v[1]>>), L(<<l12.v[2]>>)>>)>>), P("~{~{~{~a~}~}~}", <<L(<<l12, l12>>)>>),
+   P("~@{~{~a~}~}", <<l12.v[1], l12.v[2]>>), P("~{~{~a~}~:}", <<Nil>>), P("~{~{~a~^,~}~^;~}", <<l12>>),
+   P("~(~(aB~)~)", <<>>), P("~:(a ~(BC~)~)", <<>>), P("~@(~:(one TWO~)~)x", <<>>), P("~(~{~a~}~)", <<L(<<S("AB"), Sy("c")>>)>>), P("~{~(~a~)~}", <<L(<<S("AB"), S("Cd")>>)>>),
+   P("~[~[in0~;in1~]~;out1~]", <<IntV(0), IntV(1)>>), P("~[a~;~[in0~;in1~]~]|", <<IntV(1), IntV(0)>>), P("~:[no~;~:[n2~;y2~]~]", <<Sy("t"), Nil>>),
+   P("~@[~@[<~a>~]~]", <<IntV(4)>>), P("~{~:[n~;y~]~}", <<L(<<Nil, Sy("t"), Nil>>)>>), P("~[~{~a~}~]", <<IntV(0), L(<<IntV(5), IntV(6)>>)>>),
+   P("~{~[zero~;one~]~}", <<L(<<IntV(1), IntV(0)>>)>>), P("~{~#[~;last ~a~:;~a, ~]~}", <<L(<<IntV(1), IntV(2), IntV(3)>>)>>)}
+BlockPieces == IterPieces \cup CondPieces \cup CasePieces \cup IndirectPieces \cup NestPieces
 
 Grid == CASE Family = "int" -> IntPieces [] Family = "radix" -> RadixPieces [] Family = "as" -> AsPieces [] Family = "eng" -> EngPieces [] Family = "roman" -> RomanPieces
           [] Family = "misc" -> MiscPieces \cup Simple \cup Movers \cup MovePieces [] Family = "block" -> BlockPieces
           [] OTHER -> IntPieces \cup RadixPieces \cup AsPieces \cup EngPieces \cup RomanPieces \cup MiscPieces \cup Simple \cup Movers \cup MovePieces \cup BlockPieces
 \* the pool for compositions: a thinned grid plus everything that moves through the arguments
-Pools == {Simple, Movers, MovePieces, IterPieces, CondPieces, CasePieces, IndirectPieces, MiscPieces, Simple \cup Movers}
+Pools == {Simple, Movers, MovePieces, IterPieces, CondPieces, CasePieces, IndirectPieces, MiscPieces, Simple \cup Movers, NestPieces}
 
 VARIABLES hist
 Init == hist \in {<<p>> : p \in Grid}
